@@ -148,6 +148,9 @@ def generate(tier, seed):
         cases.append({"kind": "disk", "k": k, "n": 15})
     for k in range(16 if tier == "quick" else 120):
         cases.append({"kind": "bigdisk", "k": k, "n": 24})
+    # "any number of blocks may follow one another"
+    for n in (2, 17, 64, 127, 128, 129, 130, 200, 256, 257, 400) if tier == "quick" else (2, 17, 63, 64, 65, 127, 128, 129, 130, 199, 200, 255, 256, 257, 300, 400, 511, 512, 513, 700):
+        cases.append({"kind": "many", "n": n})
     return cases
 
 
@@ -212,6 +215,21 @@ def run_case(case, ctx):
         run_disk(case, ctx, res)
     elif kind == "bigdisk":
         run_bigdisk(case, ctx, res)
+    elif kind == "many":
+        n = case["n"]
+        for commented in (False, True):
+            pre = "# " if commented else ""
+            blocks = "".join(f"{pre}{START}\n{pre}SPDX-License-Identifier: LicenseRef-hidden{j}\n{pre}SPDX-FileContributor: Hidden{j}\n{pre}{END}\n" for j in range(n))
+            for tail_kind, tail, exp in (
+                    ("tag-after", f"{pre}SPDX-License-Identifier: LicenseRef-visible\n{pre}SPDX-FileCopyrightText: 2020 Visible\n",
+                     {"lic": {"LicenseRef-visible"}, "cop": {"SPDX-FileCopyrightText: 2020 Visible"}, "con": set()}),
+                    ("open-block-after", f"{pre}SPDX-License-Identifier: LicenseRef-visible\n{pre}{START}\n{pre}SPDX-License-Identifier: LicenseRef-hidden-last\n",
+                     {"lic": {"LicenseRef-visible"}, "cop": set(), "con": set()})):
+                check_text(blocks + tail, exp, res, ex, f"{n} blocks, {tail_kind}")
+                check_text(f"{pre}SPDX-FileCopyrightText: 2019 Before\n" + blocks + tail,
+                           dict(exp, cop=exp["cop"] | {"SPDX-FileCopyrightText: 2019 Before"}), res, ex, f"tag, {n} blocks, {tail_kind}")
+        res.nsig += 4
+        res.cell("many-blocks")
     return res.out()
 
 
